@@ -174,7 +174,7 @@ def run(db, tier):
                         rep.bad("R-PIXEL-PATH", "%s|direct store" % g.id, "%s:%d" % (g.file, st["ln"]),
                                 "a pixel byte is overwritten in place (%s)" % base)
     rep.floor("functions of formats/anm/image_io.rs", n_fn, 10)
-    rep.floor("mutable borrows of pixel containers on the extract/load path", n_mut, 3)
+    rep.floor("mutable borrows of pixel containers on the extract/load path", n_mut, 1)
 
     # ---------------- R-SOURCE-ORDER
     ap = db.fn("formats::anm::apply_anm_image_source")
